@@ -221,28 +221,28 @@ def breakString (maxWidth : Nat) (trimEnd : Bool) (lineEnd : List Char) (input :
     | some urlEnd => breakAt trimEnd input urlEnd
     | none => searchBreak trimEnd input mwi
 
-/-! ## the line-continuation regex `([^\\](\\\\)*)\\[\n\r][[:space:]]*` replaced by `$1` -/
+/-! ## the line-continuation regex `([^\\](\\\\)*)\\[\n\r][ \t\n\r]*` replaced by `$1` -/
 
 /-- The literal the matcher below implements; `translate/strfmt_regex.py` reads the one in string.rs
 into `RF/Gen/StringFmtRegex.lean` and `RF/Props/StringFmt.lean` compares the two. -/
-def modelledRegex : String := "([^\\\\](\\\\\\\\)*)\\\\[\\n\\r][[:space:]]*"
+def modelledRegex : String := "([^\\\\](\\\\\\\\)*)\\\\[\\n\\r][ \\t\\n\\r]*"
 
-/-- `[[:space:]]` of the regex crate: `[\t\n\v\f\r ]`. -/
-def isPosixSpace (c : Char) : Bool :=
-  c == '\t' || c == '\n' || c.toNat == 0x0B || c.toNat == 0x0C || c == '\r' || c == ' '
+/-- The white space a string continuation skips (`rustc_lexer::unescape::skip_ascii_whitespace`), which
+is also the class `[ \t\n\r]` at the end of the regex. -/
+def isContWs (c : Char) : Bool := c == ' ' || c == '\t' || c == '\n' || c == '\r'
 
 /-- State of the matcher between two characters.
 `start`: no anchor (`[^\\]`) directly before the pending backslashes;
 `even`: an anchor and an even number of backslashes behind it have been copied;
 `odd`: as `even`, plus one backslash that is held back (it starts `\\[\n\r]` if a line break follows);
-`space`: inside `[[:space:]]*` of a match. -/
+`space`: inside `[ \t\n\r]*` of a match. -/
 inductive ReState where
   | start | even | odd | space
   deriving Repr, DecidableEq
 
 /-- `Regex::replace_all(orig, "$1")`, leftmost-first, non-overlapping: a match starts at a
 non-backslash character followed by an odd number of backslashes and `\n` or `\r`; it ends after the
-longest run of `[[:space:]]`; the next search starts there (so the character after a match is not
+longest run of `[ \t\n\r]`; the next search starts there (so the character after a match is not
 preceded by an anchor). -/
 def stripGo : ReState → List Char → List Char
   | .odd, [] => ['\\']
@@ -254,7 +254,7 @@ def stripGo : ReState → List Char → List Char
     else if c == '\n' || c == '\r' then stripGo .space r
     else '\\' :: c :: stripGo .even r
   | .space, c :: r =>
-    if isPosixSpace c then stripGo .space r
+    if isContWs c then stripGo .space r
     else if c == '\\' then c :: stripGo .start r else c :: stripGo .even r
 
 /-- `strip_line_breaks_re.replace_all(orig, "$1")` (string.rs:76-77). -/
@@ -419,9 +419,6 @@ inductive ValState where
   | esc         -- directly after a backslash that starts an escape
   | skip        -- inside the white space that a line continuation swallows
   deriving Repr, DecidableEq
-
-/-- The white space a string continuation skips (`rustc_lexer::unescape::skip_ascii_whitespace`). -/
-def isContWs (c : Char) : Bool := c == ' ' || c == '\t' || c == '\n' || c == '\r'
 
 /-- The body of a (non-raw) string literal with its line continuations removed, escapes left as
 written: a backslash and the character after it form a pair; the pair backslash–newline and the
